@@ -14,6 +14,13 @@
 //   * the main thread's programs return what they return when the history's thread events are deleted.
 #include "vf_fork.hpp"
 #include <future>
+#include <atomic>
+#include <xmmintrin.h>
+static inline unsigned vf_x87cw() {   // x87 control word (rounding / precision control of long double arithmetic)
+    unsigned short cw;
+    __asm__ __volatile__("fnstcw %0" : "=m"(cw));
+    return cw;
+}
 #include <thread>
 
 using namespace vf;
@@ -38,6 +45,7 @@ static arr_cmplx cl(int n, uint64_t tag) {
     return x;
 }
 
+static std::atomic<bool> g_fpenv_changed{false};
 using OpF = std::function<uint64_t()>;
 struct Prog {
     const char* name;
@@ -61,12 +69,15 @@ static std::vector<uint64_t> run_ops(const Prog& p, size_t lo, size_t hi) {
     std::vector<uint64_t> r;
     for (size_t i = lo; i < hi; ++i) {
         uint64_t h;
+        const unsigned fp0 = (_mm_getcsr() & 0xFFC0u) | (vf_x87cw() << 16);
         try {
             h = p.ops[i]();
         } catch (const std::exception& e) {
             h = 0xE0000000ull;
             for (const char* c = e.what(); *c; ++c) h = mix(h, (uint64_t)(unsigned char)*c);
         }
+        const unsigned fp1 = (_mm_getcsr() & 0xFFC0u) | (vf_x87cw() << 16);
+        if (fp1 != fp0) g_fpenv_changed = true;   // a library call must leave rounding mode / FTZ / DAZ of its thread alone
         r.push_back(h);
     }
     return r;
@@ -201,13 +212,16 @@ int main(int argc, char** argv) {
                 if (!has_thread) continue;   // main-only histories are the reference side
                 if (!ctx.take("thread.lifetime", P().kv("history", ev_str(PR, h)))) continue;
                 ctx.nontrivial();
-                fb::Result r = fb::run([&] { fb::emit(ser(run_history(PR, h, false))); }, 30.0);
+                fb::Result r = fb::run([&] { auto v = run_history(PR, h, false); fb::emit(ser(v) + (g_fpenv_changed ? "\n" : "")); }, 30.0);
                 P par;
                 if (r.kind != fb::RETURNED) {
                     ctx.fail("thread.history", fmt("%s (signal %d) stderr: %s", fb::kind_name(r.kind), r.sig, r.err.substr(0, 300).c_str()),
                              "history completes", par);
                     continue;
                 }
+                if (r.out.size() >= 2 && r.out.compare(r.out.size() - 2, 2, "\n\n") == 0)
+                    ctx.fail("thread.fpenv", "an operation of the history changed the floating-point control state of its thread (MXCSR control bits / rounding mode)",
+                             "library calls leave rounding mode, flush-to-zero and denormals-are-zero flags as the caller set them", par);
                 auto got = deser(r.out);
                 // main-thread side: same history without thread events, fresh process
                 bool has_main = false;
